@@ -28,14 +28,32 @@ RULE = ("seeded generator of operation sequences against a real geckoPacketConn 
         "again), everything that reached the wire fed to the receiver in wire order / interleaved / reversed / permuted with "
         "duplicates: every packet whose WriteTo returned success must be delivered byte-identical, nothing else may be delivered, "
         "a refused datagram must surface as an error, the chunks on the wire of a failed write are the leading chunks, and no two "
-        "long-header writes less than 256 apart may put the same message id on the wire (harness's own id record); decodeFrame on random/structured "
+        "long-header writes less than 256 apart may put the same message id on the wire (harness's own id record); (SOURCE-ADDRESS CLASSES) "
+        "cases with an address table: the harness builds real net.Addr values - *net.UDPAddr differing ONLY in the IPv6 zone (and "
+        "zones on IPv4 addresses), 4-byte IPv4 / IPv4-mapped / IPv4-compatible forms of one address, same IP with ports p, p+1, "
+        "p^256, p+-65536, 0, addresses differing in one byte, nil / 0.0.0.0 / :: / ill-sized IPs, *net.TCPAddr / *net.IPAddr / "
+        "*net.UnixAddr values, a nil *net.UDPAddr, and a custom net.Addr type whose String() equals / extends another row's - and "
+        "reports String() of each; a source is a String() value. (xsrc:inter) every row has its own real sender, all from one "
+        "counter value, so the r-th message of every row carries the SAME message id, and the SAME chunk count (rejection sampling "
+        "of the sender's own draw); chunks of all rows interleaved (alternating / random, permuted, duplicates, rounds overlapping, "
+        "one message replicated from every source, chunks of one message split between rows of one String()): every packet "
+        "delivered for a source is byte-for-byte a packet whose chunks ALL came from that source, with the very net.Addr value of the "
+        "datagram, every complete set is delivered, a datagram never adds a chunk to / removes a pending message of another source; "
+        "(xsrc:budget) every row opens 8 messages under the same ids (admitted: 8 per String()), a 9th, completions, sweeps; "
+        "(xsrc:ttl) rows send chunks under one id seconds apart across ticks; and the clean / wild / percap / replay / lockout / "
+        "replayreal / werr families re-run over pairwise different near-colliding addresses; decodeFrame on random/structured "
         "bytes; option validation. Non-trivial = a reassembled packet was emitted, or a cap/eviction/expiry was reached, or a decode/"
         "config verdict. Distinct = distinct JSON case.")
 ASSUMPTIONS = [
     "the inner (Salamander) conn delivers datagrams whole and adds exactly smSaltLen bytes (C13); an inner write error means the datagram did not reach the wire (which call fails is an input of the model: write_to_f / send_run)",
     "crypto/rand draws are arbitrary oracle values (uniformity not claimed); the gc ticker fires at multiples of TTL/2 with its scheduled time",
     "pending messages of one source carry distinct 8-bit message ids (hypothesis of C14_no_chimera and of the round-trip theorem's 'no stale entry' premise)",
-    "source addresses are compared through net.Addr.String(), modelled as an abstract injective name (N)",
+    "a SOURCE is a value of net.Addr.String(): two addresses with different String() are different sources, two with equal String() "
+    "(e.g. an IPv4 address and its IPv4-mapped IPv6 form with the same port: both print a.b.c.d:port; a *net.UDPAddr and any other "
+    "net.Addr printing the same text) are the same source. The model's source name (N) is derived from String() exactly: the "
+    "harness reports String() of every row of a case's address table as computed by the Go standard library, and corr.C14_Corr."
+    "src_name names a row by the first row with an equal string (C14_source_names: same name <-> equal strings); without a table "
+    "the sources are the harness's own addresses with String() = \"s\" + decimal number, named by that number",
 ]
 TRUSTED = ["modelled rather than verified: extras/obfs/gecko.go and gecko_frame.go (hand transcription in coq/model/C14_Gecko.v); "
            "the two Go maps are association lists, Go map iteration order enters only as the eviction tie-break oracle"]
@@ -597,6 +615,261 @@ def gen_werr(rng, big=False):
             "ops": ops, "must": [], "distinct": True, "automust": True}
 
 
+# ---------------------------------------------------------------- source-address classes
+# A case may carry a source-address table ("addrs"): row i describes the net.Addr VALUE the harness builds for source
+# number i.  Who is the same source is decided by Go alone: the harness calls String() on every value, reports the
+# strings, and the model's source name is derived from those strings (first row with an equal string, computed in Coq
+# by corr.C14_Corr.src_name).  addr_label is this generator's transcription of String() - used ONLY to steer the
+# generation (field "g": equal g <=> the generator expects equal String()); the harness checks every claim against
+# the real String() and fails the case when the transcription is wrong.
+
+def ip4(a, b, c, d):
+    return bytes([a, b, c, d])
+
+
+def ip4in6(v4):
+    return bytes(10) + b"\xff\xff" + v4
+
+
+def ip6(hi, lo=1):
+    return bytes([hi >> 8, hi & 255]) + bytes(12) + bytes([lo >> 8, lo & 255])
+
+
+def _ipstr(ip):
+    import ipaddress
+    if len(ip) == 0:
+        return ""
+    if len(ip) == 4:
+        return ".".join(str(x) for x in ip)
+    if len(ip) == 16:
+        if ip[:12] == bytes(10) + b"\xff\xff":
+            return ".".join(str(x) for x in ip[12:])
+        return ipaddress.IPv6Address(ip).compressed
+    return "?" + ip.hex()
+
+
+def addr_label(sp, i):
+    t = sp.get("t", "")
+    if t in ("udp", "tcp"):
+        h = _ipstr(bytes.fromhex(sp.get("ip", "")))          # ipEmptyString: a nil IP prints as ""
+        if sp.get("zone"):
+            h += "%" + sp["zone"]
+        return ("[%s]:%d" if ":" in h else "%s:%d") % (h, sp.get("port", 0))   # JoinHostPort brackets on ':' only
+    if t == "ip":
+        h = _ipstr(bytes.fromhex(sp.get("ip", "")))
+        return h + ("%" + sp["zone"] if sp.get("zone") else "")
+    if t in ("unix", "str"):
+        return sp.get("name", "")
+    if t == "udpnil":
+        return "<nil>"
+    return "s%d" % i
+
+
+def udp(ip, port, zone="", t="udp"):
+    return {"t": t, "ip": ip.hex(), "port": port, "zone": zone}
+
+
+def near_groups(rng):
+    """groups of addresses that some plausible coarser-than-String() key would merge (or, for the pairs that DO have
+    one String(), that a finer key would split)"""
+    port = rng.choice([4433, 443, 1, 65535, 40000 + rng.randrange(20000)])
+    v4 = ip4(rng.choice([10, 127, 192, 203]), rng.randrange(256), rng.randrange(256), rng.randrange(1, 255))
+    ll = ip6(0xfe80, rng.randrange(1, 65536))
+    gl = ip6(0x2001, rng.randrange(1, 65536))
+    zs = rng.sample(["", "eth0", "eth1", "eth10", "1", "2", "wlan0", "ETH0", "eth0 "], 3)
+    G = {}
+    G["zone"] = [udp(ll, port, z) for z in zs]                                     # differ ONLY in the IPv6 zone
+    G["zone4"] = [udp(v4, port, z) for z in zs[:2]] + [udp(ip4in6(v4), port, zs[0])]   # zone on an IPv4 address; mapped form of row 0
+    G["v4map"] = [udp(v4, port), udp(ip4in6(v4), port), udp(bytes(12) + v4, port)]     # 4-byte / IPv4-mapped / IPv4-compatible
+    G["port"] = [udp(rng.choice([v4, gl]), p) for p in
+                 rng.sample([port, port + 1, port ^ 256, port + 65536, port - 65536, 0], 3)]
+    w = bytearray(gl)
+    w[rng.choice([0, 7, 8, 15])] ^= rng.choice([1, 0x80])
+    G["ip"] = [udp(gl, port), udp(bytes(w), port), udp(v4, port), udp(ip4(v4[0], v4[1], v4[2], v4[3] ^ 1), port)]
+    G["unspec"] = [udp(b"", port), udp(bytes(4), port), udp(bytes(16), port), udp(ip4in6(bytes(4)), port), udp(b"", port, "eth0")]
+    G["badip"] = [udp(v4[:3], port), udp(v4[:3] + b"\0", port), udp(b"\0" + v4[:3], port)]
+    G["nettype"] = [udp(ll, port, zs[1]), udp(ll, port, zs[1], t="tcp"), udp(ll, port, zs[2], t="tcp"),
+                    {"t": "ip", "ip": ll.hex(), "zone": zs[1]}, {"t": "ip", "ip": ll.hex(), "zone": zs[2]}]
+    s4 = "%s:%d" % (_ipstr(v4), port)
+    G["str"] = [udp(v4, port), {"t": "str", "name": s4, "net": "udp"}, {"t": "str", "name": s4, "net": "c14"},
+                {"t": "str", "name": s4 + " ", "net": "udp"}, {"t": "str", "name": s4 + "#1", "net": "udp"},
+                {"t": "str", "name": "", "net": "udp"}]
+    G["unix"] = [{"t": "unix", "name": "/tmp/a", "net": "unixgram"}, {"t": "unix", "name": "/tmp/a", "net": "unix"},
+                 {"t": "unix", "name": "/tmp/b", "net": "unixgram"}, {"t": "unix", "name": "", "net": "unixgram"},
+                 {"t": "unix", "name": "@a", "net": "unixgram"}, {"t": "str", "name": "/tmp/a", "net": "unixgram"}]
+    G["nil"] = [{"t": "udpnil"}, {"t": "str", "name": "<nil>", "net": "udp"}, udp(b"", 0), {"t": "str", "name": ":0", "net": "udp"}]
+    return G
+
+
+def finish_table(rows):
+    """fills in the class claims; fake rows ("t": "") get their String() from their row index"""
+    labels = {}
+    for i, sp in enumerate(rows):
+        sp["g"] = labels.setdefault(addr_label(sp, i), len(labels))
+    return rows
+
+
+def pick_table(rng, n=None, distinct=False):
+    """n rows drawn from 1-2 near-collision groups (plus, sometimes, the harness's own fake address and a custom
+    address with the same String()); distinct=True: pairwise different String() (by the transcription)"""
+    G = near_groups(rng)
+    kinds = rng.sample(sorted(G), rng.choice([1, 1, 2]))
+    if rng.random() < 0.5:
+        kinds[0] = rng.choice(["zone", "zone", "v4map", "port", "nettype", "str"])
+    pool = [dict(sp) for k in kinds for sp in G[k]]
+    rng.shuffle(pool)
+    if n is None:
+        n = rng.choice([2, 2, 3, 3, 4, 5])
+    rows = []
+    for sp in pool:
+        if len(rows) >= n:
+            break
+        if distinct and any(addr_label(sp, len(rows)) == addr_label(r, j) for j, r in enumerate(rows)):
+            continue
+        rows.append(sp)
+    while len(rows) < n:
+        i = len(rows)
+        if not distinct and rng.random() < 0.5 and any(r.get("t", "") == "" for r in rows):
+            j = [j for j, r in enumerate(rows) if r.get("t", "") == ""][0]
+            rows.append({"t": "str", "name": "s%d" % j, "net": "c14"})      # same String() as the fake address of row j
+        else:
+            rows.append({"t": ""})
+    return finish_table(rows), "+".join(kinds)
+
+
+def with_addrs(rng, case):
+    """gives an existing case a source-address table of pairwise DIFFERENT String() values drawn from the near-collision
+    groups (the case's expectations treat different source numbers as different sources)"""
+    srcs = [o["s"] for o in case["ops"] if "s" in o] + [m[1] for m in case.get("must", [])]
+    if not srcs or max(srcs) >= 16:
+        return case
+    for _ in range(20):
+        rows, kind = pick_table(rng, max(srcs) + 1, distinct=True)
+        if len({r["g"] for r in rows}) == len(rows):
+            case["addrs"] = rows
+            case["akind"] = kind
+            break
+    return case
+
+
+def gen_xsrc(rng, mode=None):
+    """CROSS-SOURCE INTERLEAVING over near-colliding source addresses.
+
+    inter: every row of the address table has its own real sender; all senders start from the same counter, so the
+    r-th message of every row goes out under the SAME message id, and (rejection sampling of the sender's own draw)
+    in the SAME number of chunks; the chunks of all rows are fed interleaved (per-message order kept / permuted, with
+    duplicates), rounds overlapping or not; in a "replicated" round ONE message is fed from every row.  Each source
+    (String() class) must get exactly its own packets, each of them, whatever arrives from the others.  Rows with one
+    String() are one source: they are given different ids most of the time (then a message whose chunks are split
+    between such rows must come out), and the same id sometimes (two messages of one source under one id: the
+    harness's verdict is silent there, the model is not).
+    budget: raw frames; every row opens 8 messages under the same ids (all admitted: 8 per String()), then a 9th
+    (refused), some are completed (payloads differ per row), a sweep, again.
+    ttl: a row opens a message, near-colliding rows send chunks under the same id 1-7 s later, ticks in between."""
+    while True:
+        rows, kind = pick_table(rng)
+        K = len(rows)
+        cls = {}
+        for i, r in enumerate(rows):
+            cls.setdefault(r["g"], []).append(i)
+        maxc = max(len(v) for v in cls.values())
+        if maxc <= 3:
+            break
+    mode = mode or rng.choice(["inter", "inter", "inter", "budget", "ttl"])
+    omin, omax = rng.choice(CFGS[:6])
+    base = {"k": "seq", "fam": "xsrc", "xmode": mode, "akind": kind, "omin": omin, "omax": omax, "rbuf": 2048, "addrs": rows}
+    if mode == "inter":
+        c0 = rng.choice([0, 0, 5, 254, 255, 2**32 - 1, rng.randrange(2**32)])
+        clashy = rng.random() < 0.25
+        senders = []
+        for i, r in enumerate(rows):
+            j = cls[r["g"]].index(i)
+            senders.append({"ctr0": (c0 + (0 if clashy else 16 * j)) % 2**32})
+        msgs, ops = [], []
+        rounds = []
+        for _r in range(rng.randint(1, min(3, 6 // maxc))):     # at most 7 messages per source (String() class)
+            tot = rng.randint(2, 8)
+            ln = rng.choice([None, rng.randint(tot, 200), rng.randint(1, 1400)])
+            streams = []
+            for i in range(K):
+                msgs.append(dict(mk_msg(rng, i, ln if rng.random() < 0.7 else rng.randint(1, 300)), tot=tot))
+                mi = len(msgs) - 1
+                feeders = [i]
+                if len(cls[rows[i]["g"]]) > 1 and rng.random() < 0.5:
+                    feeders = cls[rows[i]["g"]]          # one source seen through several address values
+                idx = list(range(tot))
+                how = rng.random()
+                if how < 0.5:
+                    rng.shuffle(idx)
+                if how > 0.7:
+                    idx += [rng.randrange(tot) for _ in range(rng.randint(1, 3))]
+                streams.append([{"o": "e", "s": rng.choice(feeders), "m": mi, "i": x} for x in idx])
+            rounds.append(streams)
+        if rng.random() < 0.4:
+            # replicated round: the next message of sender 0, fed completely from one row of every class
+            tot = rng.randint(2, 8)
+            msgs.append(dict(mk_msg(rng, 0, rng.randint(tot, 120)), tot=tot))
+            mi = len(msgs) - 1
+            streams = []
+            for g, members in sorted(cls.items()):
+                idx = list(range(tot))
+                rng.shuffle(idx)
+                streams.append([{"o": "e", "s": rng.choice(members), "m": mi, "i": x} for x in idx])
+            rounds.append(streams)
+        if rng.random() < 0.5:
+            rounds = [[st for r in rounds for st in r]]          # all rounds in flight together
+        for streams in rounds:
+            live = [list(st) for st in streams if st]
+            lock = rng.random() < 0.3                           # strict alternation between the streams
+            j = 0
+            while live:
+                st = live[j % len(live)] if lock else rng.choice(live)
+                j += 1
+                ops.append(st.pop(0))
+                if not st:
+                    live.remove(st)
+                if rng.random() < 0.05:
+                    ops.append({"o": "p", "s": rng.randrange(K), "h": short_pkt(rng).hex()})
+                if rng.random() < 0.03:
+                    ops.append({"o": "g", "t": rng.choice([0, 1000])})
+        for o in ops:
+            o["d"] = rng.choice([0, 1, 1, 1, 1000, 100000])
+        return dict(base, senders=senders, msgs=msgs, ops=ops, must=[], distinct=True, automust=True)
+    ops = []
+    if mode == "budget":
+        for _rnd in range(rng.randint(1, 2)):
+            mids = rng.sample(range(256), 12)
+            tots = [rng.choice([2, 3, 8]) for _ in mids]
+            opens = [(i, j) for i in range(K) for j in range(rng.choice([8, 8, 9, 10]))]
+            if rng.random() < 0.6:
+                rng.shuffle(opens)
+            for (i, j) in opens:
+                ops.append({"o": "p", "d": rng.choice([0, 1, 1]), "s": i,
+                            "h": raw_frame(mids[j], 0, tots[j], rng.choice([0, 2]), bytes([0xC0 | i, mids[j]])).hex()})
+            for (i, j) in rng.sample(opens, rng.randint(1, 6)):
+                for x in range(1, tots[j]):
+                    ops.append({"o": "p", "d": 1, "s": i, "h": raw_frame(mids[j], x, tots[j], 0, bytes([i, x])).hex()})
+            for i in range(K):
+                ops.append({"o": "p", "d": 1, "s": i, "h": raw_frame(mids[11], 0, 2, 0, bytes([i])).hex()})
+            ops.append(rng.choice([{"o": "t", "d": TTL + PERIOD}, {"o": "g", "d": 1, "t": 10**12}, {"o": "t", "d": 1}]))
+    else:
+        ops.append({"o": "t", "d": rng.choice([1, 10**9, PERIOD - 1, rng.randrange(1, TTL)])})
+        for _rnd in range(rng.randint(1, 3)):
+            mid, tot = rng.randrange(256), rng.choice([2, 3, 5, 8])
+            order = list(range(K))
+            rng.shuffle(order)
+            for n, i in enumerate(order):
+                d = rng.choice([1, 1000]) if n == 0 else rng.choice([10**9, 3 * 10**9, PERIOD, TTL - 10**9, 5 * 10**9])
+                ops.append({"o": "p", "d": d, "s": i, "h": raw_frame(mid, rng.randrange(tot - 1), tot, 0, bytes([0xC0 | i, n])).hex()})
+                if rng.random() < 0.3:
+                    ops.append({"o": "g", "d": 1, "t": 0})
+            ops.append({"o": "t", "d": rng.choice([PERIOD, TTL, TTL + PERIOD, 1])})
+            for i in order:
+                ops.append({"o": "p", "d": 1, "s": i, "h": raw_frame(mid, tot - 1, tot, 0, bytes([i, 0xee])).hex()})
+    return dict(base, senders=[], msgs=[], ops=ops, must=[], distinct=False)
+
+
+
 def gen_dec(rng):
     n = rng.choice([0, 1, 4, 5, 5, 6, 7, 8, 12, 20])
     b = bytearray(rng.randrange(256) for _ in range(n))
@@ -649,6 +922,14 @@ def gen(rng, tier):
         cases.append(gen_werr(rng))
     for _ in range(2 * scale):
         cases.append(gen_werr(rng, big=True))
+    # source-address classes: existing families over near-colliding (pairwise different) addresses ...
+    deco = [gen_clean, gen_clean, gen_clean, gen_wild, gen_percap, gen_replay, lambda r: gen_replay(r, lockout=True),
+            lambda r: gen_replay(r, real=True), gen_werr, gen_werr]
+    for j in range(30 * scale):
+        cases.append(with_addrs(rng, deco[j % len(deco)](rng)))
+    # ... and cross-source interleaving / budgets / expiry over them, equal and different String() values
+    for j in range(60 * scale):
+        cases.append(gen_xsrc(rng, ["inter", "inter", "inter", "budget", "ttl", None][j % 6]))
     if tier == "quick":
         cases.append(gen_flood(rng, 600, 8, False, 300))
         cases.append(gen_flood(rng, 700, 7, True, 300))
@@ -720,8 +1001,15 @@ def to_coq(c, o):
         fin = "(" + "\n ++ ".join("[" + ";".join(fr[i:i + 100]) + "]" for i in range(0, max(1, len(fr)), 100)) + ")"
         # long list literals are slow to elaborate in one piece: chunks of 100 joined with ++
         opl = "(" + "\n ++ ".join("[" + ";".join(ops[i:i + 100]) + "]" for i in range(0, max(1, len(ops)), 100)) + ")"
-        return "CSeq (%d) (%d) %d%%nat [%s] [%s]\n %s\n [%s] %d %s" % (
-            c["omin"], c["omax"], c["rbuf"], ";".join("%d%%N" % s["ctr0"] for s in c["senders"]),
+        # source names: the String() values exactly as Go computed them (none: the harness's own "s<number>" addresses)
+        if c.get("addrs"):
+            if len(o.get("names") or []) != len(c["addrs"]):
+                return None
+            names = "[" + ";".join(common.coq_bytes(bytes.fromhex(x)) for x in o["names"]) + "]"
+        else:
+            names = "[]"
+        return "CSeq (%d) (%d) %d%%nat [%s] %s [%s]\n %s\n [%s] %d %s" % (
+            c["omin"], c["omax"], c["rbuf"], ";".join("%d%%N" % s["ctr0"] for s in c["senders"]), names,
             ";\n  ".join(ms), opl, ";".join(ch), h, fin)
     return None
 
@@ -764,7 +1052,8 @@ def klass(c, o):
         return "cfg:" + ("ok" if o.get("cfg") else "rejected")
     if k == "dec":
         return "dec:" + ("ok" if "dec" in o else str(o.get("err")))
-    return "seq:" + c.get("fam", "?") + "".join("+" + x for x in feats(o, c))
+    fam = c.get("fam", "?") + (":" + c["xmode"] if c.get("xmode") else "") + ("@addr" if c.get("addrs") else "")
+    return "seq:" + fam + "".join("+" + x for x in feats(o, c))
 
 
 def nontrivial(c, o):
@@ -819,7 +1108,9 @@ def replay(ctx, path):
 
 LEVEL_TEXT = ("Machine-checked Coq theorems over a statement-by-statement Gallina model of the Gecko sender (split, padding, frame "
               "codec, 8-bit message id) and receiver (acceptChunk, per-source and global caps with oldest-eviction, TTL sweep) as a "
-              "deterministic state machine over Packet/Tick actions with time and the eviction tie-break as explicit inputs. "
+              "deterministic state machine over Packet/Tick actions with time and the eviction tie-break as explicit inputs; "
+              "below the global cap the datagrams of other source names can be deleted from any history without changing what a "
+              "source gets back or holds (C14_source_isolation), source names being String() values (C14_source_names). "
               "The model is tied to /repo on every run by regenerated constants and a step-by-step differential run of the real "
               "geckoPacketConn (real gc goroutine, fake clock) against the model in vm_compute.")
 LEVEL_NOTE = ("Trusted: Coq kernel + vm_compute; hand-written model (tie is sampled differential testing + regenerated Params); python/Go glue. "
